@@ -1,3 +1,4 @@
+import A816.PyInt
 /-!
 # L0 — bytes: `struct.pack` formats used by a816, Python-int bit operations
 
@@ -49,18 +50,6 @@ def hexDigitsAux : Nat → Nat → Nat
   | fuel+1, v => if v < 16 then 1 else 1 + hexDigitsAux fuel (v / 16)
 def hexDigits (v : Nat) : Nat := hexDigitsAux v v
 def pyHexLenMinus2 (v : Int) : Nat := if v < 0 then hexDigits v.natAbs + 1 else hexDigits v.toNat
-
-/-! Python bit operations on unbounded (possibly negative) ints. -/
-def intLand : Int → Int → Int
-  | .ofNat a, .ofNat b => Int.ofNat (a &&& b)
-  | .ofNat a, .negSucc b => Int.ofNat (Nat.bitwise (fun x y => x && !y) a b)
-  | .negSucc a, .ofNat b => Int.ofNat (Nat.bitwise (fun x y => !x && y) a b)
-  | .negSucc a, .negSucc b => .negSucc (a ||| b)
-def intLor : Int → Int → Int
-  | .ofNat a, .ofNat b => Int.ofNat (a ||| b)
-  | .ofNat a, .negSucc b => .negSucc (Nat.bitwise (fun x y => !x && y) a b)
-  | .negSucc a, .ofNat b => .negSucc (Nat.bitwise (fun x y => x && !y) a b)
-  | .negSucc a, .negSucc b => .negSucc (a &&& b)
 
 def hexDigitChar (n : Nat) : Char :=
   if n < 10 then Char.ofNat (48 + n) else Char.ofNat (87 + n)
